@@ -6,7 +6,7 @@
 From Coq Require Import List NArith ZArith QArith Qcanon Bool Lia.
 From ACB Require Import Base.Outcome Base.QcExtra Base.Arith Model.Tx Model.Ledger Model.Sfl
      Model.DeltaList Model.App Model.Summary Proofs.Tactics Proofs.C15Full Proofs.C04Sum
-     Proofs.RenderProps Proofs.C01Refine Proofs.SummaryProps Proofs.C10Scan Proofs.C10Sim.
+     Proofs.RenderProps Proofs.C01Refine Proofs.SummaryProps Proofs.C10Scan Proofs.C10Sim Proofs.C10Cut.
 Import ListNotations.
 Local Open Scope Qc_scope.
 
@@ -391,7 +391,8 @@ Theorem roundtrip_run regof like (hs : list hold_row) K T B1 st1 dsK bK stK dsT 
     run exact None (map (hold_tx like) hs ++ K' ++ T) = (dsG ++ dsK' ++ dsT, None)
     /\ map (fun d => (s_sh (d_post d), s_acb (d_post d))) dsG
        = map (fun h : hold_row => (s_sh (snd (fst h)), s_acb (snd (fst h)))) hs
-    /\ map d_post dsK' = map d_post dsK /\ map d_gain dsK' = map d_gain dsK.
+    /\ map d_post dsK' = map d_post dsK /\ map d_gain dsK' = map d_gain dsK
+    /\ Forall (fun d => exists g, In g (map (hold_tx like) hs ++ K') /\ d_sd d = t_sd g) (dsG ++ dsK').
 Proof.
   intros Hnd HF Htot Hlp Hobs HK HT Hk HW HGd Hnz Hsp.
   apply Forall_app in HW as [HWk HWt]. apply Forall_app in Hnz as [Hnzk Hnzt].
@@ -416,6 +417,11 @@ Proof.
     as (dsK' & D1' & D2' & st2' & Erun & Eb1 & HD2 & HR2 & Epost & Egain).
   cbn [app] in Erun. subst bK.
   pose proof (later_sim B1 B2 regof T D1' D2' stK st2' dsT HD2 HR2 Hnzt HT HWt HGt) as ET.
-  exists dsG, dsK'. split; [|split; [exact HobsG|split; assumption]].
+  exists dsG, dsK'. split; [|split; [exact HobsG|split; [assumption|split; [assumption|]]]].
+  2: { apply Forall_app. split.
+       - eapply (run_part_sdP exact (fun z => exists g, In g (map (hold_tx like) hs ++ K') /\ z = t_sd g)); [|exact HG].
+         apply Forall_forall. intros g Hg. exists g. split; [apply in_or_app; left; exact Hg | reflexivity].
+       - eapply (run_part_sdP exact (fun z => exists g, In g (map (hold_tx like) hs ++ K') /\ z = t_sd g)); [|exact Erun].
+         apply Forall_forall. intros g Hg. exists g. split; [apply in_or_app; right; exact Hg | reflexivity]. }
   rewrite run_None. fold st0. rewrite run_loop_app, HG, run_loop_app, Erun, ET. reflexivity.
 Qed.
